@@ -1,5 +1,7 @@
 import Proofs.ExprLitLemmas
 import Proofs.PipeAssignLemmas
+import Proofs.ExprE2ELemmas
+import Proofs.ExprFitsExact
 import Proofs.C12
 import Proofs.C07
 import Proofs.FilterSigs
@@ -216,6 +218,23 @@ front of it. `fits r l rest` (the merge conditions, spelled out in `fitsInt`, `f
 `fitsPunct`) says exactly when the lexeme `l` may be followed directly by `rest`; it always holds when `rest`
 starts with whitespace or any other break byte (`fits_break`), so a non-empty separator is always enough. -/
 
+/-- **C08 (the merge conditions are exact).** For a lexeme `l` of rule `r` followed directly by `rest`: the
+    longest-match scanner cuts exactly `l` off (as a token of rule `r`; equivalently, as a token of any rule)
+    if and only if `fits r l rest`. So `fits` lists precisely the places where two lexemes must be kept apart
+    by whitespace: a digit after a number, `.` and a digit after an integer, an identifier byte
+    (letter, digit, `_`, `-`) or `?` after a word that does not end in `?`, `:` after a word, a digit after
+    `-`, `.` or an identifier start after `.`, `=` after `= ! < >`, and the selector texts after `%` and `{`. -/
+theorem fits_exact (r : Rule) (l rest : Bytes) (hl : Lexeme r l) :
+    (lexStep (l ++ rest) = some (r, l.length) ↔ fits r l rest = true) ∧
+    ((∃ r', lexStep (l ++ rest) = some (r', l.length)) ↔ fits r l rest = true) :=
+  ⟨⟨fun h => fits_of_lexStep r l rest hl r h, fun h => lexStep_lexeme r l rest hl h⟩,
+   ⟨fun ⟨r', h⟩ => fits_of_lexStep r l rest hl r' h, fun h => ⟨r, lexStep_lexeme r l rest hl h⟩⟩⟩
+
+/-- `a` directly before `b` is the one identifier `ab` (the scanner takes 2 bytes), before `|` it is cut off -/
+example : lexStep ([97] ++ [98]) = some (.rIdent, 2) ∧ fits .rIdent [97] [98] = false ∧
+    lexStep ([97] ++ [124]) = some (.rIdent, 1) ∧ fits .rIdent [97] [124] = true := by
+  refine ⟨by decide, rfl, by decide, rfl⟩
+
 /-- **C08 (whitespace, tokens).** On well-spaced pieces the scanner returns the tokens of the lexemes
     followed by the closing `;` — the separators, the trailing whitespace `w` included, do not appear. -/
 theorem well_spaced_tokens (ps : List Piece) (w : Bytes) (h : WellSpaced (ps ++ [semiPiece w])) :
@@ -312,6 +331,34 @@ example : parseStatement kwAssign [120, 32, 61, 32, 49] = parseStatement kwAssig
     (fun i => if i = 0 then [] else [32]) (fun i => [[], [10], [9]].getD i [32]) [] [] exSepF
     ⟨fun i => by rcases i with _|_|_|i <;> rfl, fun i hi => by rcases i with _|_|_|i <;> simp at hi ⊢⟩ rfl rfl).2
     kwAssign (by simp)
+
+/-- **C08 (whitespace, from the template source to the result).** A template that is one object
+    `{{ … }}` (with or without trim hyphens, any blanks `wl`, `wr` inside the delimiters, any good delimiter
+    set), whose arguments are the lexemes `ls` laid out with any whitespace — newlines included — between
+    them, is tokenised (`scan`, the regular-expression tokenizer), compiled and rendered to the same result
+    whatever that whitespace is: the same output or the same located error, for every value layer, file
+    system and environment. `Clean` (Proofs/E2ESpell.lean, decidable) says the arguments are non-empty, do
+    not start or end with a blank or end with `-`, and do not contain the closing delimiter. -/
+theorem object_whitespace_end_to_end (P : Prims) (O : OutPrims) (cfg : Cfg) (fs : FS) (fuel : Nat)
+    (ls : List (Rule × Bytes)) (hls : ∀ x ∈ ls, Lexeme x.1 x.2) (f g : Nat → Bytes) (hf : Separators f) (hg : Separators g)
+    (hl hr : Bool) (wl wr wl' wr' : Bytes) (line : Nat) (env : Env)
+    (hgd : GoodDelims (Delims.ofList cfg.delims))
+    (hc : Clean (Delims.ofList cfg.delims) [.obj (spacedText f ls) hl hr wl wr])
+    (hc' : Clean (Delims.ofList cfg.delims) [.obj (spacedText g ls) hl hr wl' wr']) :
+    run P O cfg fs fuel (spell (Delims.ofList cfg.delims) [.obj (spacedText f ls) hl hr wl wr]) line env =
+      run P O cfg fs fuel (spell (Delims.ofList cfg.delims) [.obj (spacedText g ls) hl hr wl' wr']) line env := by
+  have hp := (whitespace_between_lexemes ls hls f g [] [] hf hg rfl rfl).1
+  simp only [List.append_nil] at hp
+  rw [run_eq_runCompiled, run_eq_runCompiled, compileSource_eq_compileTokens, compileSource_eq_compileTokens,
+    scan_spell cfg.delims _ line hgd hc, scan_spell cfg.delims _ line hgd hc',
+    compileTokens_single_obj _ _ _ hl hr wl wr wl' wr' line hp]
+
+/-- `{{ x | f: 1 , 2 | g }}` and `{{-x⏎|␍⏎f:  1 ,⇥2␋|␌g -}}`… with the same hyphens: here without -/
+example (P : Prims) (O : OutPrims) (fs : FS) (env : Env) :
+    run P O {} fs 1 [123, 123, 32, 120, 32, 124, 32, 102, 58, 32, 49, 32, 44, 32, 50, 32, 124, 32, 103, 32, 125, 125] 1 env =
+    run P O {} fs 1 [123, 123, 120, 10, 124, 13, 10, 102, 58, 32, 32, 49, 32, 44, 9, 50, 11, 124, 12, 103, 125, 125] 1 env :=
+  object_whitespace_end_to_end P O {} fs 1 exLexemes exLexemes_ok _ _ exSepF exSepH false false [32] [32] [] [] 1 env
+    (by decide) (by decide) (by decide)
 
 /-! ### Where a space does change the result: inside a lexeme, or between two lexemes that do not `fit`
 
